@@ -122,6 +122,7 @@ func runCase(c Case, r *runlog.R) error {
 	newTarget := func() reflect.Value { // a newly pre-filled value (pointer to it)
 		p := reflect.New(typ)
 		c.T.Set(p.Elem(), c.P)
+		fillIfaces(p.Elem(), c.T, c.P)
 		aliased, aliasDropped = plan.apply(p.Elem())
 		return p
 	}
